@@ -19,18 +19,35 @@ VALID_PDGS = [211, -211, 111, 321, -321, 2212, -2212, 2112, 3122, 22, 11, -11, 1
               421, 521, 4122, 5122, 3312, 221, 113, 333, 443, 1000010020]
 # invalid codes include sign-flipped self-conjugate mesons: |code| is a valid particle, the code itself is not
 # (anything that decides per |pdg|, e.g. a lookup cache shared by particle and antiparticle, must show)
-INVALID_PDGS = [99999, 1234567, 77, -111, -221, -113, -333, -443]
+INVALID_PDGS = [99999, 1234567, 77, -111, -221, -113, -333, -443, 300, 120, 220]
 
 CLASS_METHODS = ["is_hadron", "is_lepton", "is_quark", "is_meson", "is_baryon", "has_up", "has_down", "has_strange",
                  "has_charm", "has_bottom", "has_top"]
 
 
 def make_particle(spec):
+    """spec keys are attribute names; two optional extras describe how the PDG code got there: `pdg_prev` (a code assigned
+    first and then overwritten) and `pdg_werror` (the final assignment is made with warnings turned into errors and the
+    error caught, as a caller running under -W error would do): the object must end up describing its CURRENT code"""
+    import warnings
     from sparkx.Particle import Particle
     p = Particle()
+    if "pdg_prev" in spec:
+        with warnings.catch_warnings():
+            warnings.simplefilter("ignore")
+            p.pdg = spec["pdg_prev"]
     for k, v in spec.items():
+        if k in ("pdg_prev", "pdg_werror"):
+            continue
         if k == "charge":
             p.data_[12] = float(v)  # the setter triples |q|<1; we set the stored value directly
+        elif k == "pdg" and spec.get("pdg_werror"):
+            with warnings.catch_warnings():
+                warnings.simplefilter("error")
+                try:
+                    p.pdg = v
+                except Warning:
+                    pass
         else:
             setattr(p, k, v)
     return p
@@ -54,6 +71,10 @@ def gen_spec(rng, unset_prob=0.15, grid=None):
     maybe("E", lambda: rng.choice([0.5, 1.0, 2.0, 3.0, 4.0, 6.0]))
     if rng.random() >= unset_prob / 2:
         s["pdg"] = rng.choice(VALID_PDGS) if rng.random() < 0.85 else rng.choice(INVALID_PDGS)
+        if rng.random() < 0.12:  # the code was something else before (valid <-> invalid), possibly assigned under -W error
+            s["pdg_prev"] = rng.choice(VALID_PDGS) if rng.random() < 0.7 else rng.choice(INVALID_PDGS)
+            if rng.random() < 0.5:
+                s["pdg_werror"] = True
     maybe("charge", lambda: rng.choice([-2, -1, 0, 0, 1, 1, 2]))
     maybe("ncoll", lambda: rng.choice([0, 0, 1, 2, 5]))
     maybe("status", lambda: rng.choice([-1, 0, 1, 11, 27]))
@@ -266,8 +287,12 @@ def ref_pred(name, args):
         m = CLASS_FILTERS[name]
 
         def pr(p):
-            v = getattr(p, m)()
-            return (not _isnan(v)) and bool(v)
+            # independent of the Particle object's own bookkeeping: the class of the CURRENT code according to PDGID
+            from particle import PDGID
+            if _isnan(p.pdg):
+                return False
+            pid = PDGID(int(p.pdg))
+            return bool(pid.is_valid) and bool(getattr(pid, m))
         return pr
     if name == "remove_photons":
         return lambda p: (not _isnan(p.pdg)) and p.pdg != 22
